@@ -25,6 +25,34 @@ CLAIMED = {
             "Trusted: TLC, Json module, the harness's limb encoder. Not exhaustive over the 2.5e20 x 187199 product; "
             "boundary classes are exhaustive, the interior is sampled.",
             "TLA+ spec evaluated by TLC as a trace validator over implementation events; BigInt model-checked", "DESIGN.md §5 C02"),
+    "C03": ("model_checking",
+            "TzLookup.tla states the RFC 8536 / POSIX semantics definitionally (type 0 before the first transition, the "
+            "latest transition at or before the instant, the footer rule from the last transition on, rule transitions "
+            "computed from Calendar.tla); an independent reader turns the same TZif bytes / TZ string into the abstract "
+            "zone, and every jiff answer (offset, DST flag, abbreviation, civil time) at the six probes around every "
+            "transition of every zone is recomputed by TLC. Thorough covers all zones (installed, bundled, right/, "
+            "synthetic slim+fat, 2000 generated POSIX strings) and every rule year to 9999.",
+            "Trusted: the independent TZif/POSIX readers in the harness, zic for synthetic zones, TLC. Known finding D8 "
+            "(cross-year POSIX rules) is listed in KNOWN_FINDINGS.txt.",
+            "TLA+ definitional zone semantics; implementation traces validated by TLC", "DESIGN.md §5 C03"),
+    "C04": ("model_checking",
+            "The expected classification of a civil time is the set of offsets o for which the instant (civil - o) displays "
+            "that civil time under the definitional instant lookup of TzLookup.tla: one = unambiguous, two = fold "
+            "(earlier, later), none = gap (offsets in force just before / after). TLC recomputes this and the four "
+            "strategies for nine probes around every transition window of every zone, the extreme civil datetimes and "
+            "seeded civils, and checks that a resolved non-gap instant displays the civil time.",
+            "Same trusted base as C03. Civil times with three or more pre-images (only possible in back-to-back synthetic "
+            "transitions) are checked for soundness only.",
+            "TLA+ definitional pre-image semantics; implementation traces validated by TLC", "DESIGN.md §5 C04"),
+    "C14": ("model_checking",
+            "A change is an instant T with InfoAt(T) # InfoAt(T - 1ns) (TzLookup.tla). Each item yielded by following()/"
+            "preceding() must be strictly beyond the previous position, no change may lie in between, the item must be a "
+            "change or a recorded transition with the info in force from it on, and a finished iterator must leave no "
+            "change behind. Starts are placed on, +-1ns, +-0.5s, +-1s around every transition of every zone, plus long "
+            "walks across the table/rule hand-over and at both range ends; iteration is bounded and guarded, so "
+            "non-termination is reported as a violation.",
+            "Same trusted base as C03. Recorded no-op transitions may be yielded or skipped.",
+            "TLA+ definitional change semantics; implementation traces validated by TLC", "DESIGN.md §5 C14"),
 }
 
 PENDING_REASON = "check not built yet in this round (planned, see DESIGN.md §5); no claim is made"
